@@ -15,5 +15,5 @@ with cf.ThreadPoolExecutor(max_workers=4) as ex:
             bad += 1
             print("SANY failed:", os.path.basename(p), out)
 print("parsed %d specification modules, %d failed" % (len(mods), bad))
-vlib.build_harness()
+vlib.build_harness(("wire",))
 sys.exit(1 if bad else 0)
